@@ -82,6 +82,21 @@ def read_function_dict(floatfn = default_read_float, intfn = default_read_int,
 default_read_function = read_function_dict()
 fortran_read_function = read_function_dict(fortran_read_float, fortran_read_int)
 
+def fit_value_string(val, fmt, width):
+    """Returns string for a value which is too wide for its field when
+    written with the specified format.  The precision of a float value is
+    reduced until it fits into the field width.  If the value cannot
+    be made to fit, an exception is raised (rather than overflowing
+    into the following fields)."""
+    typ = fmt[-1]
+    if typ in 'eEfFgG':
+        prec = int(fmt[:-1].partition('.')[2] or 0)
+        while prec > 0:
+            prec -= 1
+            valstr = ('%%*.*%s' % typ) % (width, prec, val)
+            if len(valstr) == width: return valstr
+    raise ValueError("Value %s does not fit in field with format '%s'" % (repr(val), fmt))
+
 class fixed_format_file(object):
     """Class for fixed format text file.  Values from the file may be
     parsed into variables, according to a specification dictionary.
@@ -143,7 +158,10 @@ class fixed_format_file(object):
         fmt = self.specification[linetype][1]
         strs = []
         for val , f in zip(vals , fmt):
-            if (val is not None) and (f[-1] != 'x'): valstr = ('%%%s'%f) % val
+            if (val is not None) and (f[-1] != 'x'):
+                valstr = ('%%%s'%f) % val
+                width = self.spec_width[f[0:-1]]
+                if len(valstr) > width: valstr = fit_value_string(val, f, width)
             else: valstr = ' ' * self.spec_width[f[0:-1]] # blank
             strs.append(valstr)
         return ''.join(strs)
